@@ -145,7 +145,7 @@ func runWSCase(c *ctx, wc wsCase, limIdx int, st *partStats) {
 			ts.Close()
 			close(done)
 		}()
-		t := time.NewTimer(eventDeadline)
+		t := time.NewTimer(curDeadline())
 		defer t.Stop()
 		select {
 		case <-done:
@@ -154,7 +154,7 @@ func runWSCase(c *ctx, wc wsCase, limIdx int, st *partStats) {
 		}
 	}()
 
-	deadline := time.NewTimer(eventDeadline)
+	deadline := time.NewTimer(curDeadline())
 	defer deadline.Stop()
 
 	var err error
